@@ -1,5 +1,6 @@
 // C05 harness: Matrix::Determinant / Invertible / Inverse on the case file (grammar: checks/C05.py)
 #include "common.hpp"
+#include <new>
 #include "libphysica/Linear_Algebra.hpp"
 using namespace libphysica;
 
@@ -26,6 +27,121 @@ static Matrix fresh(const Matrix& M)
 	}
 	return Matrix(e);
 }
+
+// One call of a history on the object M (grammar: checks/C05.py).  probe = true: after every query the same query is put
+// to a fresh object built from M's current entries (read through the const operator[] only) and both answers are printed;
+// probe = false: nothing but the calls of the history themselves runs in the process.
+static bool do_step(const std::string& st, vh::Reader& r, vh::Out& o, Matrix& M, bool probe)
+{
+	const int passes = probe ? 2 : 1;
+	if(st == "det" || st == "copydet" || st == "transdet" || st == "subdet")
+	{
+		long i = 0, j = 0;
+		if(st == "subdet")
+		{
+			i = r.integer();
+			j = r.integer();
+		}
+		o.w("D");
+		for(int pass = 0; pass < passes; pass++)
+		{
+			std::unique_ptr<Matrix> F(pass == 0 ? nullptr : new Matrix(fresh(M)));
+			const Matrix& Q = (pass == 0) ? M : *F;
+			if(st == "det")
+				o.f(Q.Determinant());
+			else if(st == "copydet")
+			{
+				Matrix C(Q);
+				o.f(C.Determinant());
+			}
+			else if(st == "transdet")
+				o.f(Q.Transpose().Determinant());
+			else
+				o.f(Q.Sub_Matrix(i, j).Determinant());
+		}
+	}
+	else if(st == "invertible" || st == "orthogonal")
+	{
+		o.w("F");
+		o.i((st == "invertible" ? M.Invertible() : M.Orthogonal()) ? 1 : 0);
+		if(probe)
+		{
+			Matrix F = fresh(M);
+			o.i((st == "invertible" ? F.Invertible() : F.Orthogonal()) ? 1 : 0);
+		}
+	}
+	else if(st == "inverse")
+	{
+		o.w("X");
+		put(o, M.Inverse());
+		if(probe)
+		{
+			Matrix F = fresh(M);
+			put(o, F.Inverse());
+		}
+	}
+	else if(st == "copyinvertible")
+	{
+		Matrix C(M);
+		o.w("F");
+		o.i(C.Invertible() ? 1 : 0);
+	}
+	else if(st == "copyinverse")
+	{
+		Matrix C(M);
+		o.w("X");
+		put(o, C.Inverse());
+	}
+	else
+	{
+		if(st == "add")
+			M += rd_mat(r);
+		else if(st == "sub")
+			M -= rd_mat(r);
+		else if(st == "set")
+		{
+			long i = r.integer(), j = r.integer();
+			double v = r.num();
+			M[i][j]	 = v;
+		}
+		else if(st == "swap")
+		{
+			long i = r.integer(), j = r.integer();
+			std::swap(M[i], M[j]);
+		}
+		else if(st == "assignm")
+			M = rd_mat(r);
+		else if(st == "assign")
+		{
+			long i = r.integer(), j = r.integer();
+			double v = r.num();
+			M.Assign(i, j, v);
+		}
+		else if(st == "resize")
+		{
+			long i = r.integer(), j = r.integer();
+			M.Resize(i, j);
+		}
+		else if(st == "delrow")
+			M.Delete_Row(r.integer());
+		else if(st == "delcol")
+			M.Delete_Column(r.integer());
+		else
+		{
+			o.w("HARNESSERR unknown_step");
+			return false;
+		}
+		o.w("U");
+	}
+	return true;
+}
+
+// storage of one object of a `hist` case: the address is fixed for the whole case, objects are constructed and destroyed in place
+struct Slot
+{
+	alignas(Matrix) unsigned char buf[sizeof(Matrix)];
+	Matrix* p = nullptr;
+};
 
 static void handler(vh::Reader& r, vh::Out& o)
 {
@@ -68,95 +184,43 @@ static void handler(vh::Reader& r, vh::Out& o)
 	}
 	else if(op == "seq")
 	{
-		// A call history on ONE Matrix object.  After every query the same query is put to a fresh object built from the
-		// object's current entries (read through the const operator[] only): both answers are printed.
+		// A call history on ONE Matrix object, every query also put to a fresh object with the same entries
 		Matrix M = rd_mat(r);
 		long k	 = r.integer();
 		for(long s = 0; s < k; s++)
+			if(!do_step(r.word(), r, o, M, true))
+				return;
+	}
+	else if(op == "hist")
+	{
+		// A call history on SEVERAL Matrix objects (interleaved calls); nothing else is called in between.
+		long m = r.integer();
+		std::vector<Slot> slots(m);
+		for(long q = 0; q < m; q++)
+			slots[q].p = new(slots[q].buf) Matrix(rd_mat(r));
+		long k = r.integer();
+		for(long s = 0; s < k; s++)
 		{
+			long q = r.integer();
+			if(q < 0 || q >= m)
+			{
+				o.w("HARNESSERR no_such_object");
+				return;
+			}
 			std::string st = r.word();
-			if(st == "det" || st == "copydet" || st == "transdet" || st == "subdet")
+			if(st == "renew")
 			{
-				long i = 0, j = 0;
-				if(st == "subdet")
-				{
-					i = r.integer();
-					j = r.integer();
-				}
-				o.w("D");
-				for(int pass = 0; pass < 2; pass++)
-				{
-					Matrix F		= fresh(M);
-					const Matrix& Q = (pass == 0) ? M : F;
-					if(st == "det")
-						o.f(Q.Determinant());
-					else if(st == "copydet")
-					{
-						Matrix C(Q);
-						o.f(C.Determinant());
-					}
-					else if(st == "transdet")
-						o.f(Q.Transpose().Determinant());
-					else
-						o.f(Q.Sub_Matrix(i, j).Determinant());
-				}
-			}
-			else if(st == "invertible" || st == "orthogonal")
-			{
-				o.w("F");
-				Matrix F = fresh(M);
-				o.i((st == "invertible" ? M.Invertible() : M.Orthogonal()) ? 1 : 0);
-				o.i((st == "invertible" ? F.Invertible() : F.Orthogonal()) ? 1 : 0);
-			}
-			else if(st == "inverse")
-			{
-				o.w("X");
-				Matrix F = fresh(M);
-				put(o, M.Inverse());
-				put(o, F.Inverse());
-			}
-			else
-			{
-				if(st == "add")
-					M += rd_mat(r);
-				else if(st == "sub")
-					M -= rd_mat(r);
-				else if(st == "set")
-				{
-					long i = r.integer(), j = r.integer();
-					double v = r.num();
-					M[i][j]	 = v;
-				}
-				else if(st == "swap")
-				{
-					long i = r.integer(), j = r.integer();
-					std::swap(M[i], M[j]);
-				}
-				else if(st == "assignm")
-					M = rd_mat(r);
-				else if(st == "assign")
-				{
-					long i = r.integer(), j = r.integer();
-					double v = r.num();
-					M.Assign(i, j, v);
-				}
-				else if(st == "resize")
-				{
-					long i = r.integer(), j = r.integer();
-					M.Resize(i, j);
-				}
-				else if(st == "delrow")
-					M.Delete_Row(r.integer());
-				else if(st == "delcol")
-					M.Delete_Column(r.integer());
-				else
-				{
-					o.w("HARNESSERR unknown_step");
-					return;
-				}
+				// the object's lifetime ends and a new object is constructed in the same storage
+				std::vector<std::vector<double>> e = r.table();
+				slots[q].p->~Matrix();
+				slots[q].p = new(slots[q].buf) Matrix(e);
 				o.w("U");
 			}
+			else if(!do_step(st, r, o, *slots[q].p, false))
+				return;
 		}
+		for(long q = 0; q < m; q++)
+			slots[q].p->~Matrix();
 	}
 	else
 		o.w("HARNESSERR unknown_op");
